@@ -152,7 +152,20 @@ def _one_mono(arg):
         for thr in ladder[::2]:
             get_positive_objects(results, [LB], MODES[sibling], [thr])
             get_negative_objects(gts, results, [LB], MODES[sibling], [thr])
+    # mAP over two labels: the ladder's bucket (its ground-truth count may be smaller than its number of TPs - duplicate detections -, so that
+    # its AP can exceed 1) and a small fixed second bucket
+    g_map = g if k % 3 == 0 else max(1, g // (2 + k % 3))
+    if k % 4 != 3:
+        from perception_eval.evaluation.result.object_result import DynamicObjectWithPerceptionResult as _R
+
+        from ..build import obj3d
+
+        other = [_R(obj3d((70.0, 5.0, 0.0), label="pedestrian", score=0.7, vid=9001), obj3d((70.3, 5.0, 0.0), label="pedestrian", vid=9001)),
+                 _R(obj3d((75.0, -5.0, 0.0), label="pedestrian", score=0.4, vid=9002), obj3d((75.0, -2.0, 0.0), label="pedestrian", vid=9002))]
     for thr in ladder:
+        if k % 4 != 3:
+            m_ = Map({LB: [list(results)], AW["pedestrian"]: [list(other)]}, {LB: g_map, AW["pedestrian"]: 2}, [LB, AW["pedestrian"]], MODES[mode], [thr, thr]).map
+            map6.append(-1 if m_ == float("inf") else int(round(m_ * 1e6)))
         tp, _ = get_positive_objects(results, [LB], MODES[mode], [thr])
         _, fn = get_negative_objects(gts, results, [LB], MODES[mode], [thr])
         ids = {vid(r.estimated_object) for r in tp}
@@ -165,7 +178,7 @@ def _one_mono(arg):
         if prev is not None:
             subset.append(1 if prev <= ids else 0)
         prev = ids
-    ev = dict(tid=0, ev="Mono", ntp=ntp, nfn=nfn, ap6=ap6, aph6=aph6, subset=subset)
+    ev = dict(tid=0, ev="Mono", ntp=ntp, nfn=nfn, ap6=ap6, aph6=aph6, map6=map6 if map6 else list(ap6), subset=subset)
     return ev, dict(mode=mode, ladder=ladder, policy=prm["policy"], n=len(results), g=g, ntp=ntp, nfn=nfn, ap6=ap6, family="traffic_light_2d" if k % 4 == 3 else "autoware_3d")
 
 
